@@ -7,6 +7,10 @@ CONSTANTS
   MaxKeys = 1
   NLevels = 2
   Ops = {"frag", "trunc", "merge", "defrag"}
+  DSeqs = {1, 2}
+  DKinds = {20, 21}
+  DVals = {1, 2}
+  DMethods = {"internal", "user"}
   BugMode = "TruncKeepsBeyondEnd"
   Emit = FALSE
 INVARIANT Inv
